@@ -29,7 +29,7 @@ pub fn meta() -> PropMeta {
         nontrivial_floor: 0.3,
         run,
         replay,
-        crashy: false,
+        crashy: true,
     }
 }
 
@@ -369,7 +369,7 @@ fn case(_ctx: &ShardCtx, c: &Case, obs: &mut Obs) -> Result<(), String> {
 
 fn run(ctx: &ShardCtx, rep: &mut Report) {
     MAX_SHRINK_ITERS.store(400, std::sync::atomic::Ordering::Relaxed);
-    pt_run(ctx, rep, "credit-peer", ctx.budget(20_000, 1_000_000), case_strategy(), |c, o| case(ctx, c, o));
+    pt_run(ctx, rep, "credit-peer", ctx.budget(100_000, 4_000_000), case_strategy(), |c, o| case(ctx, c, o));
 }
 
 fn replay(_variant: &str, case_json: &Json) -> Result<(), String> {
